@@ -94,6 +94,30 @@ def mon_C05(run, cfg, seed):
     if not math.isclose(c0, c1, rel_tol=1e-9, abs_tol=1e-6 * max(1, nfills)):
         out.append(viol("C05", "C05/cash-not-conserved", "total cash is constant up to rounding",
                         {"before": c0, "after": c1, "fills": nfills}, cfg, seed))
+    # holdings against the fills the simulation *reported* (every ExecutionLog handed to the logger,
+    # whoever caused the round): endowment folded with all of them
+    rep = {a: [c, dict(s)] for a, (c, s) in run.initial.items()}
+    n_rep = 0
+    seen_fill = set()
+    for ev in log:
+        if ev[0] == "log.write" and ev[1][0] == "fill" and ev[2] not in seen_fill:
+            seen_fill.add(ev[2])
+            _, mid, t, ba, sa, bid, sid, price, vol = ev[1]
+            n_rep += 1
+            rep[ba][0] -= price * vol
+            rep[sa][0] += price * vol
+            rep[ba][1][mid] = rep[ba][1].get(mid, 0) + vol
+            rep[sa][1][mid] = rep[sa][1].get(mid, 0) - vol
+    if run.error is None:
+        checks += 1
+        for a in agents:
+            if {k: v for k, v in a.asset_volumes.items() if v} != {k: v for k, v in rep[a.agent_id][1].items() if v} or \
+                    not math.isclose(a.cash_amount, rep[a.agent_id][0], rel_tol=1e-9, abs_tol=1e-6 * max(1, n_rep)):
+                out.append(viol("C05", "C05/final-holdings-not-endowment-plus-reported-fills",
+                                "holdings = endowment folded with the fills reported for the agent (every execution record of the run)",
+                                {"agent": a.agent_id, "expected": rep[a.agent_id], "got": (a.cash_amount, dict(a.asset_volumes)),
+                                 "reported_fills": n_rep, "fills_applied_by_the_runner": nfills}, cfg, seed))
+                break
     run.n_fills = nfills
     return out, checks
 
@@ -112,15 +136,48 @@ def mon_C09(run, cfg, seed):
     pending_accept = None     # (market) awaiting a round
     cur_u = None
     batches_left = None
+    n_normal = len(run.sim.normal_frequency_agents) if run.sim is not None else 0
+    n_hft_agents = len(run.sim.high_frequency_agents) if run.sim is not None else 0
+    normal_open = False       # normal consultation of this step not yet closed
+    hft_open = False
+    aborted_at = len(log) if run.error is None else next((j for j, e in enumerate(log) if e[0] == "abort"), len(log))
+
+    def close_normal(i):
+        # consultation stops only when every normal agent has been asked or the cap is reached
+        if ses is None or not ses["placement"] or i >= aborted_at:
+            return
+        if len(step_consults) < n_normal and nonempty < max(ses["maxNormal"], 0):
+            out.append(viol("C09", "C09/normal-consultation-stopped-before-cap",
+                            "normal agents are consulted, in random order, until maxNormalOrders of them have produced orders",
+                            {"consulted": len(step_consults), "normal_agents": n_normal, "produced": nonempty,
+                             "cap": ses["maxNormal"]}, cfg, seed))
+
+    def close_hft(i):
+        if ses is None or i >= aborted_at or cur_u is None or ses["rate"] < cur_u:
+            return
+        if len(hft_consults) < n_hft_agents and hft_nonempty < max(ses["maxHft"], 0):
+            out.append(viol("C09", "C09/hft-consultation-stopped-before-cap",
+                            "after a normal batch, high-frequency agents are consulted until maxHighFrequencyOrders of them have produced orders",
+                            {"consulted": len(hft_consults), "hft_agents": n_hft_agents, "produced": hft_nonempty,
+                             "cap": ses["maxHft"]}, cfg, seed))
     for i, ev in enumerate(log):
         k = ev[0]
+        if k == "hook" and ev[1] == "market_after":
+            if normal_open:
+                normal_open = False
+                close_normal(i)
+            if hft_open:
+                hft_open = False
+                close_hft(i)
         if k == "hook" and ev[1] == "session_before":
             ses = next(s for s in run.session_cfgs if s["id"] == ev[2])
             halt = False
         elif k == "hook" and ev[1] == "market_before":
-            step_consults = {}
-            nonempty = 0
-            in_hft = False
+            if not normal_open:
+                step_consults = {}
+                nonempty = 0
+                in_hft = False
+                normal_open = ses is not None and ses["placement"]
         elif k == "hookret":
             before, after = ev[3], ev[4]
             if ev[1] == "execution_after" and before[0] and not after[0]:
@@ -169,12 +226,21 @@ def mon_C09(run, cfg, seed):
                 if reqs:
                     hft_nonempty += 1
         elif k == "draw.u":
+            if normal_open:
+                normal_open = False
+                close_normal(i)
+            if hft_open:
+                close_hft(i)
             in_hft = True
             cur_u = ev[1]
             hft_consults = {}
             hft_nonempty = 0
+            hft_open = True
         elif k in ("call.add", "call.cancel"):
             checks += 1
+            if normal_open:
+                normal_open = False
+                close_normal(i)
             in_hft = True
             if ses is not None and not ses["placement"]:
                 out.append(viol("C09", "C09/order-handed-to-market-without-placement",
@@ -207,6 +273,64 @@ def mon_C09(run, cfg, seed):
                                 {"market": pending_accept, "session": ses and ses["id"]}, cfg, seed))
                 pending_accept = None
     return out, checks
+
+
+# ---------------------------------------------------------------------------------------------
+def mon_C02_run(run, cfg, seed):
+    """priority inside whole simulations: after every round no order left resting outranks an order
+    the round filled (market before limit, better price, earlier acceptance, lower id — on the
+    orders as they stand in the book)"""
+    out, checks = [], 0
+
+    def rank(f):
+        oid, buy, price, placed, vol = f
+        return (0 if price is None else 1, 0 if price is None else (-price if buy else price), placed, oid)
+    for ev in after_setup(run):
+        if ev[0] != "ret.exec" or len(ev) < 6:
+            continue
+        logs, resting, filled = ev[2], ev[4], ev[5]
+        for l in logs:
+            for oid, buy in ((l.buy_order_id, True), (l.sell_order_id, False)):
+                f = filled.get(oid)
+                if f is None:
+                    continue
+                checks += 1
+                for r in resting:
+                    if r[1] == buy and r[0] != oid and r[4] > 0 and rank(r) < rank(f):
+                        out.append(viol("C02", "C02/resting-order-outranks-filled-one",
+                                        "after a round no order left resting has priority over an order that was filled",
+                                        {"filled": f, "left_resting": r, "market": ev[1], "fill": rc.impl_runner.log_key(l)}, cfg, seed))
+                        return out, checks
+    return out, checks
+
+
+def gen_priority_cases(ctx, n, tag="prio"):
+    """whole simulations with high-frequency agents and order-rewriting events (price limit rule,
+    order-mistake shock), narrow price bands so that many orders end up at equal prices"""
+    rng = ctx.rng("runner", tag)
+    for i in range(n):
+        cfg = rc.gen_config(rng, opts={"n_markets": rng.choice([1, 2]), "index": False, "n_normal": rng.choice([3, 5]),
+                                       "n_hft": rng.choice([1, 2, 3]), "fcn": False, "steps": rng.choice([6, 10, 16]),
+                                       "n_sessions": rng.choice([1, 2])})
+        mk = list(cfg["simulation"]["markets"])
+        for nm in mk:
+            cfg[nm]["tickSize"] = rng.choice([0.5, 1.0])
+        for nm in ("NA", "HA"):
+            if nm in cfg:
+                cfg[nm].update({"aggr": rng.choice([0.05, 0.2]), "pEmpty": 0.0, "pMarket": 0.05, "maxVol": 2, "pCancel": 0.05})
+        for s in cfg["simulation"]["sessions"]:
+            s.update({"withOrderPlacement": True, "withOrderExecution": rng.random() < 0.8,
+                      "maxNormalOrders": rng.choice([2, 3, 10]), "maxHighFrequencyOrders": rng.choice([1, 2, 5]),
+                      "highFrequencySubmitRate": 1.0})
+        cfg["PLR"] = {"class": "PriceLimitRule", "targetMarkets": mk, "triggerChangeRate": float(rng.choice([0.01, 0.02, 0.05]))}
+        evs = ["PLR"]
+        if rng.random() < 0.4:
+            steps = cfg["simulation"]["sessions"][0]["iterationSteps"]
+            cfg["OMS"] = {"class": "OrderMistakeShock", "target": rng.choice(mk), "triggerTime": rng.randint(0, steps - 1),
+                          "priceChangeRate": float(rng.choice([-0.1, 0.1])), "orderVolume": 3, "orderTimeLength": 4}
+            evs.append("OMS")
+        cfg["simulation"]["sessions"][0]["events"] = evs
+        yield cfg, rng.randint(0, 2 ** 31)
 
 
 # ---------------------------------------------------------------------------------------------
@@ -392,8 +516,23 @@ def mon_C10(run, cfg, seed):
                                 "step records are delivered synchronously", {"record": ev[1]}, cfg, seed))
         elif k == "log.write":
             pending_ids.append(ev[2])
+            if ev[1][0] in ("stepBegin", "stepEnd"):
+                checks += 1
+                v = viol("C10", "C10/step-record-not-delivered-synchronously",
+                         "step records are delivered synchronously", {"record": ev[1], "how": "queued until the next flush"}, cfg, seed)
+                if not any(x["signature"] == v["signature"] for x in out):
+                    out.append(v)
         elif k == "log.flush":
             pending_ids = []
+    # every step of every market has exactly one begin and one end record
+    if run.error is None and run.sim is not None:
+        want = sum(x["steps"] for x in run.session_cfgs) * len(run.sim.markets)
+        for kind in ("stepBegin", "stepEnd"):
+            got = sum(1 for ev in log if ev[0] == "log.deliver" and ev[1][0] == kind)
+            checks += 1
+            if got != want:
+                out.append(viol("C10", "C10/step-records-count:" + kind, "one step-begin and one step-end record per market and step",
+                                {"delivered": got, "expected": want}, cfg, seed))
     # compare multiset + order (expiries of one tick up to order)
     def norm(key):
         if key[0] == "expiry":
@@ -487,7 +626,7 @@ def gen_cases(ctx, prop, n):
         elif prop == "C11":
             opts = {"n_normal": rng.choice([2, 4, 8]), "n_hft": rng.choice([0, 1, 3])}
         cfg = rc.gen_config(rng, opts=opts)
-        if prop == "C09" and i % 5 in (1, 3):
+        if (prop == "C09" and i % 5 in (1, 3)) or (prop in ("C05", "C11", "C10") and i % 4 == 1):
             # "whatever events are configured": built-in events, in particular a trading halt that
             # is still in force when its (execution) session ends and a no-execution session follows
             mk = [m for m in cfg["simulation"]["markets"] if m.startswith("M")]
